@@ -259,6 +259,67 @@ def gen(seed, run, tier='quick'):
                                     ('/' if e == 1 else '*'), w, tu)
                                    for _ in range(2)]
     if rng.random() < 0.15:
+        # scenario: a unit of a type WITHOUT reference unit whose definition
+        # contains the power of a scaled unit (km**2 / n), reached through
+        # another expansion (km * (km/n)); the classes involved are
+        # declared in different orders in the different worlds, and the
+        # normal form of a term must not depend on that
+        def add(act):
+            decl.apply(model, act)
+            decls.append(act)
+        n = model.fresh()
+        ln, lref = f'T{n}', f'r{n}'
+        add({'a': 'base_type', 'name': ln, 'ref_sym': lref,
+             'quantum': None, 'expect': 'accept'})
+        n = model.fresh()
+        km = f'u{n}'
+        add({'a': 'scaled_unit', 'type': ln, 'sym': km, 'parent': lref,
+             'k': rng.choice([{'t': 'int', 'v': '1000'},
+                              {'t': 'dec', 'v': '0.001'},
+                              {'t': 'frac', 'v': '1/3'},
+                              {'t': 'prefix', 'v': 'KILO'}]),
+             'via': 'rmul', 'expect': 'accept'})
+        n = model.fresh()
+        nn = f'T{n}'
+        add({'a': 'base_type', 'name': nn, 'ref_sym': None,
+             'quantum': None, 'expect': 'accept'})
+        n = model.fresh()
+        nu = f'u{n}'
+        add({'a': 'plain_unit', 'type': nn, 'sym': nu, 'expect': 'accept'})
+        e = rng.choice([2, 2, 3])
+        n = model.fresh()
+        an = f'D{n}'
+        add({'a': 'derived_type', 'name': an, 'items': [[ln, e]],
+             'style': rng.randrange(3), 'ref_sym': f'a{n}',
+             'auto_ref': False, 'quantum': None, 'expect': 'accept',
+             'dup_dim': False})
+        n = model.fresh()
+        kme = f'v{n}'
+        add({'a': 'derive_unit', 'type': an, 'units': [km], 'sym': kme,
+             'expect': 'accept'})
+        s = rng.choice([1, -1])
+        n = model.fresh()
+        pn = f'D{n}'
+        add({'a': 'derived_type', 'name': pn, 'items': [[an, 1], [nn, s]],
+             'style': rng.randrange(3), 'ref_sym': None, 'auto_ref': False,
+             'quantum': None, 'expect': 'accept', 'dup_dim': False})
+        n = model.fresh()
+        pu = f'v{n}'
+        add({'a': 'derive_unit', 'type': pn, 'units': [kme, nu],
+             'sym': pu, 'expect': 'accept'})
+        n = model.fresh()
+        xn = f'D{n}'
+        add({'a': 'derived_type', 'name': xn,
+             'items': [[ln, e - 1], [nn, s]], 'style': rng.randrange(3),
+             'ref_sym': None, 'auto_ref': False, 'quantum': None,
+             'expect': 'accept', 'dup_dim': False})
+        n = model.fresh()
+        xu = f'v{n}'
+        add({'a': 'derive_unit', 'type': xn, 'units': [km, nu], 'sym': xu,
+             'expect': 'accept'})
+        scenario_probes += [('uu*', km, xu), ('uu*', xu, km),
+                            ('qq*', km, xu)]
+    if rng.random() < 0.15:
         # scenario: a type is rejected because its reference symbol is
         # taken, later the same dimension is declared properly; operations
         # of that dimension must then give instances of the declared type
